@@ -12,13 +12,14 @@ from .tags import HASH_MODES, KEY_TAGS
 
 
 class Shadow:
-    __slots__ = ("cols", "eng", "pending", "nrows", "mat", "multi", "hidden", "leaves", "compound")
+    __slots__ = ("cols", "eng", "pending", "nrows", "mat", "multi", "hidden", "leaves", "compound", "terms")
 
     def __init__(self, cols, eng, pending=False, nrows=3, mat=False, multi=False, hidden=(), leaves=(), compound=False):
         self.cols = set(cols)
         self.hidden = set(hidden)
         self.leaves = frozenset(leaves)       # leaf tables read by this relation (to steer away from known findings)
         self.compound = compound              # root is a chain (UNION)
+        self.terms = None                     # terms of the sort that produced this entry (if any)
         self.eng = eng
         self.pending = pending
         self.nrows = nrows
@@ -37,7 +38,7 @@ class Gen:
                  total_sort_p=0.5, pref_engines=None, leaf_payloads=("simrows", "seq", "map"),
                  bounds=("exact",), special_leaf_p=0.0, named_mat=True, max_rows=5, itonly_p=0.0,
                  allow_pending_binary=0.05, hidden_p=0.0, zero_col_p=0.08, adjacent_p=0.0, ill_flags_p=0.5,
-                 nonkey_join_p=0.0, pipeline_p=0.0):
+                 nonkey_join_p=0.0, pipeline_p=0.0, redeclare_p=0.0):
         self.rng = rng
         self.engines = engines
         self.weights = weights
@@ -58,6 +59,7 @@ class Gen:
         self.zero_col_p = zero_col_p
         self.adjacent_p = adjacent_p
         self.nonkey_join_p = nonkey_join_p
+        self.redeclare_p = redeclare_p
         self.pipeline = rng.random() < pipeline_p      # one deep pipeline: unary operations keep extending the last entry
         self.ill_flags_p = ill_flags_p
         self.force_last = False
@@ -84,6 +86,8 @@ class Gen:
             name = "itonly" if r.random() < self.itonly_p else r.choice(["inc", "dbl"])
             if self.cur_eng == "it2" and r.random() < 0.4:
                 name = "only2"
+            if name == "itonly" and r.random() < 0.4:
+                return ["udfu", name, self.expr(cols, depth - 1, need_ref)]     # unrestricted twin of the same function
             return ["udf", name, self.expr(cols, depth - 1, need_ref)]
         op = r.choice(["add", "sub", "mul"])
         a = self.expr(cols, depth - 1, need_ref)
@@ -105,6 +109,12 @@ class Gen:
                 self.preds.pop(0)
             return p
         return self._pred(cols, depth)
+
+    @staticmethod
+    def _ecols(e):
+        from .exprs import expr_cols
+
+        return expr_cols(e)
 
     @staticmethod
     def _pcols(p):
@@ -226,6 +236,17 @@ class Gen:
                     row[c] = r.randint(-2, 3)
             rows.append([row[c] for c in cols])
         op = {"k": "leaf", "eng": eng, "cols": cols, "rows": rows}
+        if self.redeclare_p and self.ops and r.random() < self.redeclare_p:
+            # (executor: same engine / columns / name as an earlier leaf; the shadow keeps *these* columns, which is
+            #  only a typing guess - the executor re-checks every operation against the model)
+            prev = [o for o in self.ops if o["k"] == "leaf" and not o.get("special")]
+            if prev:
+                k = r.randrange(len(prev))
+                op["redeclare"] = k
+                cols = sorted(prev[k]["cols"])
+                eng = prev[k]["eng"]
+                op["cols"], op["eng"] = cols, eng
+                op["rows"] = rows = [[r.randint(-2, 3) for _ in cols] for _ in rows]
         if eng != "sql":
             op["payload"] = r.choice(self.leaf_payloads)
         b = r.choice(self.bounds)
@@ -341,10 +362,23 @@ class Gen:
         sh = self.pool[i]
         fl = self.flags(sh)
         terms = self.terms(sh.cols)
+        if sh.terms and self.rng.random() < 0.35:
+            # related to the sort already there: a prefix of it, an extension of it, a re-ordering, a flipped direction
+            old = [list(t) for t in sh.terms if set(self._ecols(t[0])) <= sh.cols]
+            k = self.rng.random()
+            if old and k < 0.3:
+                terms = old + terms[:1]
+            elif old and k < 0.55:
+                terms = old[: self.rng.randint(1, len(old))]
+            elif old and k < 0.8:
+                terms = old[::-1]
+            elif old:
+                terms = [[old[0][0], not old[0][1]]] + old[1:]
         if sh.compound and sh.eng == "sql" and self.rng.random() < 0.85:
             terms = [[["ref", self.rng.choice(sorted(sh.cols))], t[1]] for t in terms]     # (known finding F25 otherwise)
         self.ops.append({"k": "sort", "t": i, "terms": terms, **fl})
         self.pool.append(sh.copy(pending=True, eng=self._after_flags(sh, fl)))
+        self.pool[-1].terms = terms
 
     def g_slice(self):
         i = self.pick()
@@ -473,6 +507,8 @@ class Gen:
         p = self.pred(l.cols | rr.cols, 2) if r.random() < 0.4 else None
         if r.random() < 0.2:
             fl["cc"] = True       # Join(pred, min_columns=max_columns=<shared key columns>).partial(rhs).apply(lhs)
+        elif l.eng == rr.eng and r.random() < 0.15:
+            fl["direct"] = True   # Join(pred).apply(lhs, rhs): the binary entry point, unresolved common columns
         self.ops.append({"k": "join", "l": i, "r": j, "p": p, **fl})
         self.pool.append(Shadow(l.cols | rr.cols, rr.eng, leaves=l.leaves | rr.leaves))
 
